@@ -59,7 +59,6 @@ static size_t do_compress(ZSTD_CCtx* cctx, int stream, unsigned char* dst, size_
         return (size_t)-ZSTD_error_GENERIC; }
 }
 
-#include "zvh_mem_c13.h"
 
 int main(void) {
     char* line; signal(SIGALRM, on_alarm);
@@ -97,7 +96,7 @@ int main(void) {
             size_t ic[64], oc[64]; size_t ni = parse_csv(strtok(NULL, " "), ic, 64), no = parse_csv(strtok(NULL, " "), oc, 64);
             size_t cap = 1 << 22, consumed = 0, produced = 0, r = 1, ii = 0, oi = 0; unsigned char* out = (unsigned char*)malloc(cap); ZSTD_DCtx* d; void* mem = NULL; size_t need = 0, szof = 0; int idle = 0, calls = 0;
             cnt_reset();
-            if (isStatic) { need = ZSTD_estimateDStreamSize(W); mem = malloc(need + 8); d = ZSTD_initStaticDStream((void*)(((size_t)mem + 7) & ~(size_t)7), need); }
+            if (isStatic) { need = ZSTD_estimateDStreamSize(W); mem = malloc(need + 8); d = ZSTD_initStaticDStream((void*)(((size_t)mem + 7) & ~(size_t)7), need); if (d) ZSTD_DCtx_setMaxWindowSize(d, W); }
             else { d = ZSTD_createDCtx_advanced(g_cmem); ZSTD_DCtx_setParameter(d, ZSTD_d_windowLogMax, (int)W); }
             if (!d) { printf("FAIL no context\n"); free(in); free(out); free(mem); continue; }
             while (calls++ < 5000000) { size_t isz = ic[ii++ % ni], osz = oc[oi++ % no]; ZSTD_inBuffer ib; ZSTD_outBuffer ob;
@@ -110,7 +109,24 @@ int main(void) {
             if (isStatic) printf(" need=%zu\n", need); else printf(" peak=%zu sizeof=%zu live=%zu est=%zu\n", g_peak, szof, g_live, ZSTD_estimateDStreamSize((size_t)1 << W));
             if (!isStatic) { ZSTD_freeDCtx(d); if (cnt_leaks()) printf("LEAK\n"); cnt_release_leaks(); }
             free(in); free(out); free(mem);
-        } else if (!c13_op(op)) printf("bad-op\n");
+        } else if (!strcmp(op, "csizeof")) {
+            /* csizeof <id=val,...|-> <size> <seed> <dictSize> : ZSTD_sizeof_* against the bytes live in a counting allocator */
+            char* spec = strtok(NULL, " "); size_t n = (size_t)strtoull(strtok(NULL, " "), NULL, 10); unsigned long long seed = strtoull(strtok(NULL, " "), NULL, 10); size_t dn = (size_t)strtoull(strtok(NULL, " "), NULL, 10);
+            unsigned char* src = (unsigned char*)malloc(n ? n : 1); unsigned char* dict = (unsigned char*)malloc(dn ? dn : 1); size_t cap = ZSTD_compressBound(n) + 16; unsigned char* dst = (unsigned char*)malloc(cap);
+            ZSTD_CCtx* c; size_t r = 0; char pcopy[512]; char* save = NULL; char* kv; int level = 3;
+            gen_data(src, n, seed); gen_data(dict, dn, seed + 1); cnt_reset();
+            c = ZSTD_createCCtx_advanced(g_cmem); strncpy(pcopy, spec, sizeof pcopy - 1); pcopy[sizeof pcopy - 1] = 0;
+            if (strcmp(spec, "-")) for (kv = strtok_r(pcopy, ",", &save); kv && !ZSTD_isError(r); kv = strtok_r(NULL, ",", &save)) { int id, val; if (sscanf(kv, "%d=%d", &id, &val) == 2) { r = ZSTD_CCtx_setParameter(c, (ZSTD_cParameter)id, val); if (id == 100) level = val; } }
+            if (!ZSTD_isError(r) && dn) r = ZSTD_CCtx_loadDictionary(c, dict, dn);
+            if (!ZSTD_isError(r)) r = ZSTD_compress2(c, dst, cap, src, n);
+            printf("rc=%s cctx sizeof=%zu live=%zu", ZSTD_isError(r) ? zv_errclass(r) : "ok", ZSTD_sizeof_CCtx(c), g_live);
+            ZSTD_freeCCtx(c); printf(" leaks=%zu", cnt_leaks()); cnt_release_leaks(); cnt_reset();
+            {   ZSTD_CDict* cd = ZSTD_createCDict_advanced(dict, dn, ZSTD_dlm_byCopy, ZSTD_dct_auto, ZSTD_getCParams(level, 0, dn), g_cmem);
+                printf(" cdict sizeof=%zu live=%zu", cd ? ZSTD_sizeof_CDict(cd) : 0, g_live); ZSTD_freeCDict(cd); printf(" leaks=%zu", cnt_leaks()); cnt_release_leaks(); cnt_reset(); }
+            {   ZSTD_DDict* dd = ZSTD_createDDict_advanced(dict, dn, ZSTD_dlm_byCopy, ZSTD_dct_auto, g_cmem);
+                printf(" ddict sizeof=%zu live=%zu", dd ? ZSTD_sizeof_DDict(dd) : 0, g_live); ZSTD_freeDDict(dd); printf(" leaks=%zu\n", cnt_leaks()); cnt_release_leaks(); cnt_reset(); }
+            free(src); free(dict); free(dst);
+        } else printf("bad-op\n");
         fflush(stdout);
     }
     return 0;
